@@ -309,6 +309,10 @@ func c19Examples(c *Ctx) {
 	emitCli(c, "concat", VL{VN(1)}, fvals(v1, rootless), VL{}, false)
 	emitCli(c, "verify", VL{}, fvals(rootless), VL{}, false)
 	emitCli(c, "getblock", VL{VB(b2.Cid.Bytes())}, fvals(v2), ex, true)
+	emitCli(c, "getblock", VL{VB(bi.Cid.Bytes())}, fvals(v2), ex, true)
+	emitCli(c, "getblock", VL{VB(mkCid(1, 0x55, mh.SHA2_256, -1, []byte("absent")).Bytes())}, fvals(v2), ex, true)
+	out0 := buildV2(v1.payload, 0, 0, 0, false)
+	emitCli(c, "filter", VL{VL{VB(b2.Cid.Bytes()), VB(bi.Cid.Bytes())}, VN(0), VN(2), VN(1)}, VL{VB(v2.file), VB(out0)}, VL{v2.desc(), v1.desc()}, true)
 	c.Count("examples:theorem-instance")
 }
 
